@@ -245,6 +245,8 @@ def c16_obligations(ip, ctx, run, base):
         if ob[0] == "ret":
             last = reads[-1]
             obs.append(Obligation(base + "/result_is_last_reply", ctx, ip.equals(ob[1].attrs.get("unparsed_response"), last, ctx)))
+    obs.append(Obligation(base + "/assigns_nothing", ctx, not ctx.ghost.heap_writes and not ctx.ghost.module_writes,
+                          note=str([(type(o).__name__, a) for o, a in ctx.ghost.heap_writes][:2])))
     # never reports success after an empty reply
     if ob[0] == "ret":
         succ = ip.truth(ip.getattr(ob[1], "successful", ctx), ctx)
